@@ -3,6 +3,7 @@ package main
 // C03: artifact rules.  Ops: unpack (UnpackRule), rules (VerifyArtifacts), clean (path.Clean via rule paths).
 
 import (
+	"encoding/json"
 	"fmt"
 	"path"
 	"sort"
@@ -79,7 +80,11 @@ func projRes(m any) any {
 	if !ok {
 		return m
 	}
-	return map[string]any{"res": mm["res"]}
+	out := map[string]any{"res": mm["res"]}
+	if v, ok := mm["links_same"]; ok {
+		out["links_same"] = v
+	}
+	return out
 }
 
 func init() {
@@ -119,7 +124,12 @@ func init() {
 				items = append(items, intoto.Step{Type: "step", SupplyChainItem: sci})
 			}
 		}
+		before, _ := json.Marshal(links)
 		first := outcome(func() error { return intoto.VerifyArtifacts(items, links) })
+		// the caller's links after the call: as they were (finding F22: the clean-up of artifact
+		// names used to rewrite their maps in place)
+		after, _ := json.Marshal(links)
+		first["links_same"] = string(before) == string(after)
 		// "repeat": the same arguments again, on fresh objects: the verdict must not depend on
 		// the order in which Go hands out the entries of the artifact maps (C10)
 		for i := 0; i < numOf(a["repeat"]); i++ {
